@@ -333,18 +333,27 @@ hwloc_synthetic_process_indexes(struct hwloc_synthetic_backend_data_s *data,
 
     free(loops);
 
-    /* check that we have the right values (cannot pass total, cannot give duplicate 0) */
-    for(j=0; j<total; j++) {
-      if (array[j] >= total) {
-	if (verbose)
-	  fprintf(stderr, "Invalid index interleaving generates out-of-range index %u\n", array[j]);
+    /* check that we have a permutation of 0..total-1 (cannot pass total, cannot give duplicates) */
+    {
+      char *seen = calloc(total ? total : 1, 1);
+      if (!seen)
 	goto out_with_array;
+      for(j=0; j<total; j++) {
+	if (array[j] >= total) {
+	  if (verbose)
+	    fprintf(stderr, "Invalid index interleaving generates out-of-range index %u\n", array[j]);
+	  free(seen);
+	  goto out_with_array;
+	}
+	if (seen[array[j]]) {
+	  if (verbose)
+	    fprintf(stderr, "Invalid index interleaving generates duplicate index values\n");
+	  free(seen);
+	  goto out_with_array;
+	}
+	seen[array[j]] = 1;
       }
-      if (!array[j] && j) {
-	if (verbose)
-	  fprintf(stderr, "Invalid index interleaving generates duplicate index values\n");
-	goto out_with_array;
-      }
+      free(seen);
     }
 
     indexes->array = array;
